@@ -22,8 +22,16 @@ pub fn parse_hms_or_human_time(text: &str) -> anyhow::Result<Duration> {
         })
 }
 
-pub fn local_to_system_time(datetime: chrono::NaiveDateTime) -> SystemTime {
-    chrono::Local.from_local_datetime(&datetime).unwrap().into()
+/// Interprets `datetime` as a local time.
+/// A time that is ambiguous (it happens twice when daylight saving time ends) is resolved to the
+/// earlier instant, a time that does not exist (it is skipped when daylight saving time starts)
+/// is an error.
+pub fn local_to_system_time(datetime: chrono::NaiveDateTime) -> anyhow::Result<SystemTime> {
+    chrono::Local
+        .from_local_datetime(&datetime)
+        .earliest()
+        .map(|time| time.into())
+        .ok_or_else(|| anyhow!("Local time {datetime} does not exist"))
 }
 
 fn parse_hms_time_inner() -> impl CharParser<Duration> {
